@@ -5,45 +5,12 @@
    the source does now - Gen/GenFreeze.v) key equality is identity of the frozen value; without
    it, 2 and 2.0 collide (the defect of the pinned tree). *)
 From Coq Require Import String List ZArith Bool Arith.
-From EinxV Require Import Model.PyVal Gen.GenFreeze.
+From EinxV Require Import Model.PyVal Gen.GenFreeze Proofs.PyValProofs.
 Import ListNotations.
-
-Lemma fv_ind' (P : fv -> Prop) :
-  (forall n, P (FNum n)) -> (forall s, P (FStr s)) -> P FNone ->
-  (forall l, Forall P l -> P (FTuple l)) -> (forall l, Forall (fun kv => P (snd kv)) l -> P (FDict l)) ->
-  (forall i, P (FOther i)) -> forall v, P v.
-Proof.
-  intros H1 H2 H3 H4 H5 H6. fix IH 1. intros [n|s| |l|l|i].
-  - apply H1. - apply H2. - apply H3.
-  - apply H4. induction l as [|x l IHl]; constructor; [apply IH|exact IHl].
-  - apply H5. induction l as [|[k x] l IHl]; constructor; [apply IH|exact IHl].
-  - apply H6.
-Qed.
-
-Lemma nty_eqb_eq a b : nty_eqb a b = true -> a = b.
-Proof. destruct a, b; cbn; congruence. Qed.
-
-Lemma num_typed_eq x y : nty_eqb (nt x) (nt y) && num_eq x y = true -> x = y.
-Proof.
-  destruct x as [t1 i1 c1], y as [t2 i2 c2]. unfold num_eq. cbn [nt integral code]. intros H.
-  apply andb_prop in H as [H1 H2]. apply andb_prop in H2 as [H2 H3].
-  apply nty_eqb_eq in H1. apply Bool.eqb_prop in H2. apply Z.eqb_eq in H3. congruence.
-Qed.
 
 (* equal keys are identical frozen values: a cache hit was compiled for exactly these arguments *)
 Theorem C06_typed_keys_separate : forall a b, key_eq true a b = true -> a = b.
-Proof.
-  induction a as [n|s| |l IH|l IH|i] using fv_ind'; intros [n2|s2| |l2|l2|i2] H; cbn [key_eq] in H; try discriminate.
-  - f_equal. now apply num_typed_eq.
-  - apply String.eqb_eq in H. congruence.
-  - reflexivity.
-  - f_equal. revert l2 H. induction IH as [|x l Hx _ IHl]; intros [|y l2] H; try discriminate; [reflexivity|].
-    apply andb_prop in H as [H1 H2]. f_equal; [now apply Hx|now apply IHl].
-  - f_equal. revert l2 H. induction IH as [|[k x] l Hx _ IHl]; intros [|[k2 y] l2] H; try discriminate; [reflexivity|].
-    apply andb_prop in H as [H H3]. apply andb_prop in H as [H1 H2]. apply String.eqb_eq in H1. cbn [snd] in Hx.
-    f_equal; [f_equal; [exact H1|now apply Hx]|now apply IHl].
-  - apply Nat.eqb_eq in H. congruence.
-Qed.
+Proof. exact typed_keys_separate. Qed.
 Print Assumptions C06_typed_keys_separate.
 
 (* hence any outcome that is a function of the frozen arguments is the same for a hit and a miss *)
